@@ -220,6 +220,7 @@ def replay_case(arg):
             except Exception as e:
                 fail('EvaluableS1', type(e).__name__, dict(error=repr(e)))
                 return fails, cnt
+            kept_grad = (g, np.array(g, dtype=float, copy=True), x.copy())       # results are values: looked at again at the end
             g = np.asarray(g, dtype=float)
             if not interp.close(sc, v) or not interp.close(v2, v):
                 fail('GradSlotOK', 'score', dict(s1=float(sc), call=float(v), call_after=float(v2)))
@@ -230,6 +231,17 @@ def replay_case(arg):
                 fail('GradSlotOK', 'gradient', dict(positions=bad[:6], got=g.tolist(), expected=exp_g.tolist()))
         if not np.array_equal(x_in, x):
             fail('NoInputWrite', 'parameters_modified', None)
+    # ---- the gradient handed out at the first point is still the gradient at the first point after the posterior has been
+    # evaluated (with sensitivities) at another one
+    if not fails:
+        try:
+            with warnings.catch_warnings():
+                warnings.simplefilter('ignore')
+                post.evaluateS1(x.copy())                # (x is now the vector of the LAST trial)
+            if not np.array_equal(np.asarray(kept_grad[0], dtype=float), kept_grad[1]):
+                fail('GradSlotOK', 'earlier_gradient_changed_by_a_later_evaluation', dict(at=kept_grad[2].tolist()))
+        except Exception as e:
+            fail('EvaluableS1', type(e).__name__, dict(error=repr(e)))
     # ---- representation: a whole-number point handed over as an INTEGER array (or a list of ints) scores like the same point
     # as floats, value and gradient
     if not fails:
